@@ -1,5 +1,6 @@
 import NessaiVerif.Model.LivePoint
 import NessaiVerif.Proofs.LivePoint
+import NessaiVerif.Gen.LivePointTx
 /-
 C18 — live-point conversions preserve names, order, values and defaults.
 Property theorems only (helper lemmas live in Proofs/LivePoint.lean).
@@ -691,5 +692,39 @@ example := view_set_is_field_set exLP exWF 2 (by decide) 1 0 9 (by decide) (by d
 example := view_set_frame exLP exWF "y" 1 9 (by decide) (by decide)
 example := view_put_get exLP exWF 4 (by decide) 0 3 9 (by decide) (by decide)
 example := view_of_parameters exC exR ["x", "y"] true [[1, 2], [3, 4]] exFresh (by decide)
+
+/-! ## The registration function of the source, regenerated on every run, IS the model's registry update -/
+
+theorem addFold_source_eq_model (r : Registry V) (l : List (String × V)) :
+    l.foldl (fun (st : List String × List V) (pdv : String × V) =>
+        if ¬ (st.1.contains pdv.1) then ((st.1 ++ [pdv.1]), (st.2 ++ [pdv.2])) else st) (r.names, r.defaults) =
+      ((l.foldl addOne r).names, (l.foldl addOne r).defaults) := by
+  induction l generalizing r with
+  | nil => rfl
+  | cons pd l ih =>
+    simp only [List.foldl_cons]
+    by_cases h : r.names.contains pd.1
+    · have e : addOne r pd = r := by unfold addOne; rw [if_pos h]
+      simp only [h, not_true_eq_false, if_false, e]
+      exact ih r
+    · have e : addOne r pd = ⟨r.extras ++ [pd]⟩ := by unfold addOne; rw [if_neg h]
+      simp only [h, not_false_eq_true, if_true, e]
+      have := ih ⟨r.extras ++ [pd]⟩
+      simpa [Registry.names, Registry.defaults] using this
+
+/-- `Gen.LivePointTx.add_extra_parameters_to_live_points` is generated by `harness/c18_tx.py` from the current text of
+`nessai.livepoint.add_extra_parameters_to_live_points` (the default of `default_values`, the loop over the zip, the guard and
+the three appends, statement by statement).  Started from any registry state it produces exactly the names and defaults of
+the model's `add` — so every registry theorem above (`registry_no_duplicates`, `registry_add_existing_skipped`,
+`registry_new_arrays`, the history theorems) is about the source as it is now. -/
+theorem add_extra_source_eq_model (cfg : Cfg V) (r : Registry V) (ps : List String) (dvs : Option (List V)) :
+    Gen.LivePointTx.add_extra_parameters_to_live_points cfg.nan r.names r.defaults ps dvs =
+      ((add cfg r ps dvs).names, (add cfg r ps dvs).defaults) := by
+  unfold Gen.LivePointTx.add_extra_parameters_to_live_points add
+  exact addFold_source_eq_model r _
+
+/-- applied: an already registered name in front of a new one keeps the new one's OWN default (position, not count) -/
+example : Gen.LivePointTx.add_extra_parameters_to_live_points (0 : Nat) ["a"] [7] ["a", "b"] (some [1, 2]) =
+    (["a", "b"], [7, 2]) := by decide
 
 end NessaiVerif.C18
